@@ -162,6 +162,14 @@ type c07H struct {
 	anonSeen map[int]bool
 }
 
+// trace appends one readable line per operation / request to the case
+// description (what a replay file shows as the input).
+func (h *c07H) trace(format string, a ...any) {
+	if len(h.desc) < 400 {
+		h.desc = append(h.desc, fmt.Sprintf(format, a...))
+	}
+}
+
 func (h *c07H) fail(key, format string, a ...any) {
 	if h.key == "" {
 		h.key = key
@@ -317,6 +325,7 @@ func (h *c07H) add() {
 		l.Add(p)
 		h.steps = append(h.steps, vfApp("C07.HOp", vfApp("OAdd", vfApp("C07.E", vfN(0), vfZ(h.lastNS+1), vfZ(100), vfBytes(strings.ToLower(host)), vfBytes(ip), vfBytes(cid), vfZ(int64(reason)), vfBool(res.IsFiltered)))))
 		h.cls["add-while-disabled"] = true
+		h.trace("add (log disabled) %s from %s clientid=%q", host, ip, cid)
 		return
 	}
 	// hold the flush lock so that the asynchronous flush cannot empty the
@@ -384,6 +393,7 @@ func (h *c07H) add() {
 	h.lastNS = rec.ns
 	h.recs = append(h.recs, rec)
 	h.byNS[rec.ns] = rec
+	h.trace("add #%d %s from %s clientid=%q reason=%d flush_spawned=%v", rec.id, rec.host, rec.ip, rec.cid, rec.reason, pending)
 	opName := "OAdd"
 	if h.lockHeld {
 		opName = "OAddAsync"
@@ -452,6 +462,7 @@ func (h *c07H) op() {
 		h.moveMemToFile()
 		h.steps = append(h.steps, "(C07.HOp OFlush)")
 		h.cls["op-flush"] = true
+		h.trace("flush")
 	case k < 80:
 		if err := l.rotate(h.ctx); err != nil {
 			h.t.Fatal(err)
@@ -474,6 +485,7 @@ func (h *c07H) op() {
 		}
 		h.steps = append(h.steps, "(C07.HOp ORotate)")
 		h.cls["op-rotate"] = true
+		h.trace("rotate")
 	case k < 82:
 		rq := httptest.NewRequest("POST", "/control/querylog_clear", nil)
 		l.handleQueryLogClear(httptest.NewRecorder(), rq)
@@ -482,6 +494,7 @@ func (h *c07H) op() {
 		}
 		h.steps = append(h.steps, "(C07.HOp OClear)")
 		h.cls["op-clear"] = true
+		h.trace("POST /control/querylog_clear")
 	case k < 93:
 		// configuration change through the HTTP API, client table directly
 		en := !r.Chance(1, 6)
@@ -504,6 +517,7 @@ func (h *c07H) op() {
 		h.steps = append(h.steps, vfApp("C07.HOp", vfApp("OSetConfig", vfBool(en), h.coqIgnored(), h.coqClients())),
 			vfApp("C07.HAnon", vfBool(h.anon)))
 		h.cls["op-config"] = true
+		h.trace("PUT /control/querylog/config/update %s; client table %d", body, h.table)
 		if h.anon != wasAnon {
 			h.cls["op-config-anonymize-toggled"] = true
 			// a request right behind the change: served with the switch on, it
@@ -536,6 +550,7 @@ func (h *c07H) op() {
 		h.newLog(mem, !r.Chance(1, 5), !r.Chance(1, 10))
 		h.steps = append(h.steps, vfApp("C07.HOp", vfApp("ORestart", h.coqConfig())))
 		h.cls["op-restart"] = true
+		h.trace("restart: mem_size=%d file_enabled=%v enabled=%v anonymize_client_ip=%v", h.l.conf.MemSize, h.l.conf.FileEnabled, h.l.conf.Enabled, h.anon)
 	}
 	h.state()
 }
@@ -712,6 +727,7 @@ func (h *c07H) search(q c07Query) (resp c07Resp) {
 			h.t.Fatalf("unexpected status %d", w.Code)
 		}
 	}
+	h.trace("GET /control/querylog?%s -> code %d ids %v clients %v", q.encode(), resp.code, resp.ids, resp.clients)
 	rows := make([]string, len(resp.ids))
 	for i, id := range resp.ids {
 		rows[i] = vfPair(vfN(uint64(id)), vfN(uint64(c07TextIndex(resp.clients[i]))))
@@ -790,6 +806,7 @@ func (h *c07H) searchDirect(q c07Query, olderNS int64, limit, offset, scan int) 
 		code = 2
 	}
 	older := vfOpt("Z", olderNS != 0, vfZ(olderNS))
+	h.trace("search(older_than=%d limit=%d offset=%d scan=%d term=%q status=%q) -> ids %v oldest %d panicked %v", olderNS, limit, offset, scan, q.term, q.status, ids, oldestNS, panicked)
 	h.steps = append(h.steps, vfApp("C07.HSearchP",
 		vfApp("C07.P", older, vfZ(int64(limit)), vfZ(int64(offset)), vfZ(int64(scan)), vfList("crit", crits)),
 		vfZ(code), vfList("N", cids), vfZ(oldestNS)))
@@ -1103,6 +1120,7 @@ func c07AnonPrelude(t *testing.T, out *vfOut, r *vfRand, mem uint) {
 			vfApp("C07.HAnon", vfBool(on)))
 		h.cls["op-config"] = true
 		h.cls["op-config-anonymize-toggled"] = true
+		h.trace("PUT /control/querylog/config/update %s", body)
 	}
 	rotate := func() {
 		if err = h.l.rotate(h.ctx); err != nil {
@@ -1116,11 +1134,13 @@ func c07AnonPrelude(t *testing.T, out *vfOut, r *vfRand, mem uint) {
 			}
 		}
 		h.steps = append(h.steps, "(C07.HOp ORotate)")
+		h.trace("rotate")
 	}
 	flush := func() {
 		_ = h.l.flushLogBuffer(h.ctx)
 		h.moveMemToFile()
 		h.steps = append(h.steps, "(C07.HOp OFlush)")
+		h.trace("flush")
 	}
 	for i := uint(0); i < mem; i++ { // the last one fills the buffer: flushed
 		h.add()
@@ -1158,7 +1178,7 @@ func c07AnonPrelude(t *testing.T, out *vfOut, r *vfRand, mem uint) {
 	c := vfCase{
 		Coq: c07CHist(c0, h.steps),
 		Nontrivial: true, MonitorOK: len(h.msgs) == 0, MonitorMsg: strings.Join(h.msgs, "; "), FindingKey: h.key,
-		Desc: map[string]any{"kind": "anonymise-toggle", "mem_size": mem, "entries": len(h.recs), "searches": h.nsearch},
+		Desc: map[string]any{"kind": "anonymise-toggle", "mem_size": mem, "entries": len(h.recs), "searches": h.nsearch, "trace": h.desc},
 	}
 	for k := range h.cls {
 		c.Classes = append(c.Classes, k)
@@ -1228,7 +1248,7 @@ func c07History(t *testing.T, out *vfOut, r *vfRand, nops int, mem uint, fileEna
 		MonitorOK:  len(h.msgs) == 0,
 		MonitorMsg: strings.Join(h.msgs, "; "),
 		FindingKey: h.key,
-		Desc:       map[string]any{"kind": tag, "ops": nops, "mem_size": mem, "file_enabled": fileEnabled, "entries": len(h.recs), "searches": h.nsearch},
+		Desc:       map[string]any{"kind": tag, "ops": nops, "mem_size": mem, "file_enabled": fileEnabled, "entries": len(h.recs), "searches": h.nsearch, "trace": h.desc},
 	}
 	for k := range h.cls {
 		c.Classes = append(c.Classes, k)
@@ -1272,7 +1292,7 @@ func c07ScanPrelude(t *testing.T, out *vfOut, r *vfRand) {
 	c := vfCase{
 		Coq: c07CHist(c0, h.steps),
 		Nontrivial: true, MonitorOK: len(h.msgs) == 0, MonitorMsg: strings.Join(h.msgs, "; "), FindingKey: h.key,
-		Desc: map[string]any{"kind": "scan-window-prelude", "entries": len(h.recs), "searches": h.nsearch},
+		Desc: map[string]any{"kind": "scan-window-prelude", "entries": len(h.recs), "searches": h.nsearch, "trace": h.desc},
 	}
 	for k := range h.cls {
 		c.Classes = append(c.Classes, k)
@@ -1340,7 +1360,7 @@ func c07ClearRacePrelude(t *testing.T, out *vfOut, r *vfRand, mem uint) {
 	c := vfCase{
 		Coq: c07CHist(c0, h.steps),
 		Nontrivial: true, MonitorOK: len(h.msgs) == 0, MonitorMsg: strings.Join(h.msgs, "; "), FindingKey: h.key,
-		Desc: map[string]any{"kind": "clear-overtakes-spawned-flush", "mem_size": mem, "entries": len(h.recs), "searches": h.nsearch},
+		Desc: map[string]any{"kind": "clear-overtakes-spawned-flush", "mem_size": mem, "entries": len(h.recs), "searches": h.nsearch, "trace": h.desc},
 	}
 	for k := range h.cls {
 		c.Classes = append(c.Classes, k)
